@@ -20,6 +20,10 @@ class SymSet:
         return vor(*[ex.equals(y, x) for y in self.items])
 
     def sym_iter(self, ex):
+        # the iteration order of a set is unspecified (for strings it changes from process to process) and equal elements
+        # collapse: only the empty and the one-element set are iterated
+        if len(self.items) > 1:
+            raise Unsupported('iteration over a set of several symbolic elements (order unspecified, equal elements collapse)')
         return list(self.items)
 
     def __len__(self):
@@ -659,7 +663,44 @@ def m_bytes_ljust(ex, b, width, fill=b' '):
     return _pad(ex, b, width, fill, False)
 
 
-BYTES_METHODS = {'rjust': m_bytes_rjust, 'ljust': m_bytes_ljust, 'hex': m_bytes_hex, 'find': m_bytes_find, 'extend': m_bytes_extend, 'decode': m_bytes_decode,
+def _bstrip(ex, b, chars, left, right):
+    b = SBytes.of(b)
+    chars = ex.concretize(chars)
+    if chars is None:
+        chars = b' \t\n\r\x0b\x0c'
+    if not isinstance(chars, (bytes, bytearray)):
+        raise Unsupported('bytes.strip with a symbolic set of bytes')
+    items = list(b.items)
+
+    def drop(x):
+        c = vor(*[x == ch for ch in set(chars)]) if chars else False
+        return c is True or (c is not False and ex.truth(c))
+    lo, hi = 0, len(items)
+    if right:
+        while hi > lo and drop(items[hi - 1]):
+            hi -= 1
+    if left:
+        while lo < hi and drop(items[lo]):
+            lo += 1
+    out = items[lo:hi]
+    if all(isinstance(i, int) for i in out):
+        return bytes(out)
+    return SBytes(out)
+
+
+def m_bytes_rstrip(ex, b, chars=None):
+    return _bstrip(ex, b, chars, False, True)
+
+
+def m_bytes_lstrip(ex, b, chars=None):
+    return _bstrip(ex, b, chars, True, False)
+
+
+def m_bytes_strip(ex, b, chars=None):
+    return _bstrip(ex, b, chars, True, True)
+
+
+BYTES_METHODS = {'rstrip': m_bytes_rstrip, 'lstrip': m_bytes_lstrip, 'strip': m_bytes_strip, 'rjust': m_bytes_rjust, 'ljust': m_bytes_ljust, 'hex': m_bytes_hex, 'find': m_bytes_find, 'extend': m_bytes_extend, 'decode': m_bytes_decode,
                  'startswith': m_bytes_startswith}
 
 
